@@ -52,3 +52,10 @@ def fraction_default(**opts):
         ntype = Fraction
 
     return default(_E, **opts)
+
+
+def float_default(**opts):
+    class _E:
+        ntype = float
+
+    return default(_E, **opts)
